@@ -37,17 +37,17 @@ enum Signer {
     Unknown,
 }
 
-const OPS: [Op; 6] = [Op::Sign(0), Op::Sign(1), Op::Sign(2), Op::Sign(3), Op::Clear, Op::Reparse];
+const OPS: [Op; 7] = [Op::Sign(0), Op::Sign(1), Op::Sign(2), Op::Sign(3), Op::Clear, Op::Reparse, Op::SignFail(0)];
 
-/// i-th history (shortlex) over the 6 operations
+/// i-th history (shortlex) over the 7 operations
 fn history(mut i: u64, maxlen: u32) -> Option<Vec<Op>> {
     for len in 0..=maxlen {
-        let n = 6u64.pow(len);
+        let n = 7u64.pow(len);
         if i < n {
             let mut v = vec![];
             for _ in 0..len {
-                v.push(OPS[(i % 6) as usize].clone());
-                i /= 6;
+                v.push(OPS[(i % 7) as usize].clone());
+                i /= 7;
             }
             return Some(v);
         }
@@ -57,7 +57,7 @@ fn history(mut i: u64, maxlen: u32) -> Option<Vec<Op>> {
 }
 
 fn count_histories(maxlen: u32) -> u64 {
-    (0..=maxlen).map(|l| 6u64.pow(l)).sum()
+    (0..=maxlen).map(|l| 7u64.pow(l)).sum()
 }
 
 impl Property for C10 {
@@ -98,7 +98,7 @@ impl Property for C10 {
                 cases: tier.pick(300, 10_000),
                 strat: Arc::new(move || {
                     let st = starts.as_ref().clone();
-                    (proptest::sample::select(st), proptest::collection::vec(prop_oneof![6 => op_cheap(), 1 => Just(Op::Sign(1)), 2 => proptest::sample::select(vec![0u8, 2, 3]).prop_map(Op::SignNow)], 4..9)).prop_map(|(start, ops)| C10Case { start, ops, sweep: 0, sweep_key: 0, sweep_t0: 0 }).boxed()
+                    (proptest::sample::select(st), proptest::collection::vec(prop_oneof![6 => op_cheap(), 1 => Just(Op::Sign(1)), 2 => proptest::sample::select(vec![0u8, 2, 3]).prop_map(Op::SignNow), 2 => (0u8..3).prop_map(Op::SignFail)], 4..9)).prop_map(|(start, ops)| C10Case { start, ops, sweep: 0, sweep_key: 0, sweep_t0: 0 }).boxed()
                 }),
             },
             Phase::Enumerate {
@@ -215,11 +215,15 @@ fn inner(case: &C10Case, o: &mut Outcome) -> Result<(), (String, String)> {
     }
     check_state(&pkg, model, &start_header, &start_content, "start")?;
     for (i, op) in case.ops.iter().enumerate() {
+        // a signer that returns bytes which are no signature: the model has no opinion
+        if matches!(op, Op::SignFail(k) if k % 4 == 3) {
+            continue;
+        }
         apply_op(&mut pkg, op)?;
         model = match op {
             Op::Sign(k) | Op::SignNow(k) => Signer::Key(*k as usize % 4),
             Op::Clear | Op::ClearSigInPlace | Op::EmptySig => Signer::None,
-            Op::Reparse => model,
+            Op::Reparse | Op::SignFail(_) => model,
         };
         check_state(&pkg, model, &start_header, &start_content, &format!("after step {i} ({op:?}) of {:?}", case.ops))?;
     }
